@@ -15,6 +15,7 @@ import (
 func TestMain(m *testing.M) { vk.Main(m, "C13") }
 
 type Case struct {
+	Max    int        `json:"max,omitempty"` // v+1: the maximum bitmap of exactly 2^25 words = 2^31 bits, description v (gen.UseMax); Words is empty
 	Words  vk.Words   `json:"words"`
 	Style  string     `json:"style,omitempty"`
 	Ranges [][2]int32 `json:"ranges"` // (i, end)
@@ -24,10 +25,11 @@ var checker = &vk.Checker[Case]{
 	ID: "C13",
 	Rule: "bitmaps with runs of zero words between ones and ones at offsets 0 and 63 (islands/tail/palette/sparse styles, <= 12 words, thorough <= 300) x ranges 0<=i<=end<=64*len drawn inside one word, across several, on word boundaries, empty; " +
 		"NextOne (i inside the bitmap) and PrevOne (end>=1) against a naive scan. Grid: all 216 three-word bitmaps over {0,1,1<<31,1<<63,1|1<<63,^0} x ALL (i,end). " +
+		"Also the MAXIMUM bitmap - exactly 2^25 words = 2^31 bits, the largest one int32 positions address (three sparse descriptions, oracle from the description): ranges ending at 2^31-1, empty ranges at the top, scans across 2^24 zero words and scans that run off the end. " +
 		"Non-trivial (per case): some range spans >= 2 words and its answer is not in the first word probed, or it has no answer and >= 1 zero word is skipped. Grid ranges are distinct by construction; rapid cases hashed when the bitmap has > 3 words.",
 	Check:    check,
 	Classify: classify,
-	Hashed:   func(c Case) bool { return len(c.Words) > 3 },
+	Hashed:   func(c Case) bool { return len(c.Words) > 3 || c.Max > 0 },
 }
 
 func naiveNext(w []uint64, i, end int32) int32 {
@@ -94,7 +96,63 @@ func rangeNontrivial(w []uint64, i, end int32) bool {
 	return false
 }
 
+// checkMax: ranges on the largest bitmap whose positions fit an int32 (sparse oracle from its description).
+func checkMax(v int, ranges [][2]int32) *vk.Failure {
+	if v < 0 || v >= gen.MaxVariants {
+		return nil
+	}
+	w := gen.UseMax(v)
+	for _, r := range ranges {
+		i, end := r[0], r[1]
+		if i < 0 || i > end {
+			continue
+		}
+		wantN, wantP := int32(gen.MaxNext(int64(i), int64(end))), int32(gen.MaxPrev(int64(i), int64(end)))
+		var got int32
+		if f := vk.Try(fmt.Sprintf("NextOne(i=%d,end=%d) on 2^25 words (description %d)", i, end, v), func() { got = bitmap.NextOne(w, i, end) }); f != nil {
+			return f
+		}
+		if got != wantN {
+			return vk.Failf("nextone", "2^25-word bitmap (description %d): NextOne(bm, %d, %d) = %d, want %d", v, i, end, got, wantN)
+		}
+		if end >= 1 {
+			if f := vk.Try(fmt.Sprintf("PrevOne(i=%d,end=%d) on 2^25 words (description %d)", i, end, v), func() { got = bitmap.PrevOne(w, i, end) }); f != nil {
+				return f
+			}
+			if got != wantP {
+				return vk.Failf("prevone", "2^25-word bitmap (description %d): PrevOne(bm, %d, %d) = %d, want %d", v, i, end, got, wantP)
+			}
+		}
+	}
+	if k, bad := gen.MaxBitmapDamage(); bad {
+		return vk.Failf("mutates", "word %d of the 2^25-word bitmap was modified", k)
+	}
+	return nil
+}
+
+// maxRanges: ranges at the top of the int32 range, across the long zero runs and next to every set word.
+func maxRanges(v int) [][2]int32 {
+	gen.UseMax(v)
+	top := int32(gen.MaxTop)
+	rs := [][2]int32{{top, top}, {top - 1, top}, {top - 62, top}, {top - 63, top}, {top - 64, top}, {top - 65, top - 1}, {top - 200, top}, {0, top}, {1, top - 63}, {top - 127, top - 64}}
+	ks := gen.MaxSetWords()
+	for n, k := range ks {
+		lo := int32(k) * 64
+		rs = append(rs, [2]int32{lo, lo + 64}, [2]int32{lo + 1, lo + 63})
+		if n+1 < len(ks) { // from just after this set word over the zero run to the next one (exclusive and inclusive of its first one)
+			nx := int32(ks[n+1]) * 64
+			rs = append(rs, [2]int32{lo + 64, nx}, [2]int32{lo + 64, nx + 64 - 1}, [2]int32{lo + 63, nx + 1})
+		} else if int64(lo)+64 <= int64(top) {
+			rs = append(rs, [2]int32{lo + 64, top}, [2]int32{lo + 1, top}) // runs off the end of the bitmap
+		}
+	}
+	return rs
+}
+
 func check(c Case) *vk.Failure {
+	if c.Max > 0 {
+		return checkMax(c.Max-1, c.Ranges)
+	}
 	for _, r := range c.Ranges {
 		if f := checkRange(c.Words, r[0], r[1]); f != nil {
 			return f
@@ -128,6 +186,9 @@ func checkRange(orig []uint64, i, end int32) *vk.Failure {
 }
 
 func classify(c Case) (bool, []string) {
+	if c.Max > 0 {
+		return true, []string{"style:maximum-bitmap(2^25 words)"}
+	}
 	nt := false
 	multi, empty := 0, 0
 	for _, r := range c.Ranges {
@@ -272,6 +333,9 @@ func TestGrid(t *testing.T) {
 			rs = append(rs, [2]int32{0, int32(nb)}, [2]int32{int32(nb) - 1, int32(nb)}, [2]int32{1, int32(nb) - 1})
 			checker.Run(t, Case{Words: w, Style: "grid-very-long", Ranges: rs})
 		}
+	}
+	for v := 0; v < gen.MaxVariants; v++ { // exactly 2^31 bits: the largest positions an int32 holds
+		checker.Run(t, Case{Max: v + 1, Style: "maximum", Ranges: maxRanges(v)})
 	}
 	vk.CountConstructed(evals, nontriv, "grid-range")
 	vk.AddSample(map[string]any{"grid": "216 three-word bitmaps x all (i,end)", "example": map[string]any{"words": []string{"8000000000000000", "0", "1"}, "i": 64, "end": 130, "NextOne": bitmap.NextOne([]uint64{1 << 63, 0, 1}, 64, 130), "PrevOne": bitmap.PrevOne([]uint64{1 << 63, 0, 1}, 64, 130)}})
